@@ -10,7 +10,17 @@ _F = {}
 
 def _call(args):
     i, case = args
-    return i, _F["f"](case)
+    try:
+        return i, _F["f"](case)
+    except BaseException as e:  # exceptions may not survive pickling (and would hang the pool): report as text
+        import traceback
+
+        return i, _WorkerError(f"{type(e).__name__}: {e}\n{traceback.format_exc()[-1500:]}", repr(case)[:300])
+
+
+class _WorkerError:
+    def __init__(self, text, case):
+        self.text, self.case = text, case
 
 
 def run(worker, cases, chunksize=None):
@@ -22,4 +32,9 @@ def run(worker, cases, chunksize=None):
     chunksize = chunksize or max(1, len(cases) // (NPROC * 8))
     with mp.get_context("fork").Pool(NPROC) as pool:
         out = pool.map(_call, list(enumerate(cases)), chunksize=chunksize)
+    for _, r in out:
+        if isinstance(r, _WorkerError):
+            from mc.evidence import HarnessError
+
+            raise HarnessError(f"grid worker crashed on case {r.case}: {r.text}")
     return [r for _, r in out]
